@@ -51,7 +51,7 @@ AllSigs == {"USR1", "PIPE", "CHLD"}
 DefIgn(sig) == sig = "CHLD"  \* default action "ignore" (XBD signal.h); others terminate
 
 \* Absolute paths (below the scratch root) of every node that can exist.
-Universe == { <<>>, <<"f">>, <<"d">>, <<"d", "g">>, <<"d", "n">>, <<"n">>, <<"g">>,
+Universe == { <<>>, <<"f">>, <<"d">>, <<"d", "g">>, <<"d", "n">>, <<"n">>, <<"g">>, <<"j">>,
               <<"l">>, <<"ld">>, <<"lx">>, <<"p">> }
 
 NodeNone          == [k |-> "none", data |-> <<>>, perm |-> 0,   to |-> <<>>]
@@ -562,6 +562,17 @@ CallsMode(St) ==
   \cup { [op |-> "chdir", path |-> <<"d">>] }
   \cup { [op |-> "close", fd |-> x] : x \in FdArgs(St, FALSE) }
 
+\* O_APPEND against truncation through another open of the same file: "If
+\* the O_APPEND flag is set, the file offset shall be set to the end of the
+\* file prior to each write" (XSH write) - the end at THAT time
+CallsApp(St) ==
+     { COpen(<<"f">>, m[1], m[2]) : m \in { <<"W", {"C", "A"}>>, <<"W", {"C", "T"}>>, <<"R", {}>> } }
+  \cup { [op |-> "write", fd |-> x, data |-> d] : x \in FdArgs(St, FALSE), d \in { <<5>>, <<6, 6>> } }
+  \cup { [op |-> "fstat", fd |-> x] : x \in FdArgs(St, FALSE) }
+  \cup { [op |-> "read", fd |-> x, n |-> 9] : x \in FdArgs(St, FALSE) }
+  \cup { [op |-> "lseek", fd |-> x, wh |-> "SET", off |-> 0] : x \in FdArgs(St, FALSE) }
+  \cup { [op |-> "close", fd |-> x] : x \in FdArgs(St, FALSE) }
+
 CallsPipe(St) ==
      { [op |-> "pipe"] }
   \cup { COpen(<<"p">>, m[1], m[2]) : m \in { <<"R", {"N"}>>, <<"W", {"N"}>>, <<"R", {}>>, <<"W", {}>>, <<"W", {"C", "T"}>> } }
@@ -590,6 +601,7 @@ Calls(St) ==
          [] Theme = "fd"   -> CallsFD(St)
          [] Theme = "path" -> CallsPath(St)
          [] Theme = "mode" -> CallsMode(St)
+         [] Theme = "app"  -> CallsApp(St)
          [] Theme = "pipe" -> CallsPipe(St)
          [] Theme = "sig"  -> CallsSig(St)
 
@@ -654,7 +666,21 @@ TargetOf(St, c) ==
       IF o.t = "file" THEN St.node[o.path].k ELSE o.t
   ELSE "-"
 
-Fan == { [c |-> c, r |-> Apply(S, c).r, t |-> TargetOf(S, c)] : c \in Calls(S) }
+\* Observation of the successor state after a call that changed the state
+\* (distinct states are extended along ONE history each, so the effect of a
+\* call must be looked at right after it): the sizes of the regular files by
+\* absolute name and the offset of the descriptor the call used.
+PostCalls(St2, c) ==
+  << [op |-> "statat", path |-> <<"/", "f">>, follow |-> TRUE],
+     [op |-> "statat", path |-> <<"/", "n">>, follow |-> TRUE] >>
+  \o (IF "fd" \in DOMAIN c /\ IsOpen(St2, c.fd) THEN << [op |-> "lseek", fd |-> c.fd, wh |-> "CUR", off |-> 0] >> ELSE <<>>)
+
+Post(St, c) ==
+  LET a == Apply(St, c) IN
+  IF a.r.k = "undef" \/ a.s = St \/ ~a.s.alive THEN <<>>
+  ELSE LET pcs == PostCalls(a.s, c) IN [i \in 1 .. Len(pcs) |-> [c |-> pcs[i], r |-> Apply(a.s, pcs[i]).r]]
+
+Fan == { [c |-> c, r |-> Apply(S, c).r, t |-> TargetOf(S, c), post |-> Post(S, c)] : c \in Calls(S) }
 
 \* the initial tree, printed with the initial state (the harness builds it on
 \* both systems)
